@@ -1,10 +1,10 @@
 package ethh
 
 import (
-	"strings"
 	"context"
 	"fmt"
 	"net"
+	"strings"
 	"sync"
 	"time"
 
@@ -19,6 +19,7 @@ import (
 	ethcommon "github.com/ethereum/go-ethereum/common"
 	"github.com/ethereum/go-ethereum/rpc"
 	"go.uber.org/zap"
+	"go.uber.org/zap/zapcore"
 )
 
 type Driver struct {
@@ -35,6 +36,81 @@ type Driver struct {
 	conns   []net.Conn
 	srvs    []*rpc.Server
 	ChainID vaa.ChainID
+	// log gate: a log call is a point at which a goroutine of the watcher can be delayed (its sink blocks, the
+	// goroutine is descheduled). LogSeen lists the messages of this run in order; an armed gate parks the goroutine
+	// that writes the (skip+1)-th entry containing gateSub inside the log call until ReleaseLog.
+	LogSeen  []string
+	gateSub  string
+	gateSkip int
+	gateHeld []chan struct{}
+	// OnPark is called by the goroutine that is about to be parked in a log call
+	OnPark func()
+}
+
+type gateCore struct{ d *Driver }
+
+func (g gateCore) Enabled(l zapcore.Level) bool          { return l >= zapcore.InfoLevel }
+func (g gateCore) With([]zapcore.Field) zapcore.Core      { return g }
+func (g gateCore) Sync() error                            { return nil }
+func (g gateCore) Check(e zapcore.Entry, ce *zapcore.CheckedEntry) *zapcore.CheckedEntry {
+	if g.Enabled(e.Level) {
+		return ce.AddCore(e, g)
+	}
+	return ce
+}
+func (g gateCore) Write(e zapcore.Entry, _ []zapcore.Field) error {
+	d := g.d
+	d.mu.Lock()
+	d.LogSeen = append(d.LogSeen, e.Message)
+	var ch chan struct{}
+	if d.gateSub != "" && strings.Contains(e.Message, d.gateSub) {
+		if d.gateSkip > 0 {
+			d.gateSkip--
+		} else {
+			ch = make(chan struct{})
+			d.gateHeld = append(d.gateHeld, ch)
+			d.gateSub = ""
+		}
+	}
+	onPark := d.OnPark
+	d.mu.Unlock()
+	if ch != nil {
+		if onPark != nil {
+			onPark()
+		}
+		<-ch
+	}
+	return nil
+}
+
+// HoldLog arms the gate; ReleaseLog lets every parked log call return. LogHeld: goroutines currently parked.
+func (d *Driver) HoldLog(sub string, skip int) {
+	d.mu.Lock()
+	d.gateSub, d.gateSkip = sub, skip
+	d.mu.Unlock()
+}
+func (d *Driver) ReleaseLog() {
+	d.mu.Lock()
+	held := d.gateHeld
+	d.gateHeld, d.gateSub = nil, ""
+	d.mu.Unlock()
+	for _, ch := range held {
+		close(ch)
+	}
+}
+// LogSince returns the messages logged after the first n.
+func (d *Driver) LogSince(n int) []string {
+	d.mu.Lock()
+	defer d.mu.Unlock()
+	if n > len(d.LogSeen) {
+		n = len(d.LogSeen)
+	}
+	return append([]string{}, d.LogSeen[n:]...)
+}
+func (d *Driver) LogHeld() int {
+	d.mu.Lock()
+	defer d.mu.Unlock()
+	return len(d.gateHeld)
 }
 
 // NewDriver starts the real watcher. finalized=true runs it as chain Ethereum outside dev mode, which
@@ -58,7 +134,7 @@ func NewDriver(c *Chain, waitForConfirmations, finalized bool) *Driver {
 	w := ethereum.NewEthWatcher("/verif/sim.ipc", Core, "sim", "sim", d.ChainID, d.MsgC, d.SetC, d.ReqC, false, &poll, waitForConfirmations)
 	ctx, cancel := context.WithCancel(context.Background())
 	d.cancel = cancel
-	d.sup = supervisor.New(ctx, zap.NewNop(), func(ctx context.Context) error {
+	d.sup = supervisor.New(ctx, zap.New(gateCore{d}), func(ctx context.Context) error {
 		if err := supervisor.Run(ctx, "ethwatch", func(ctx context.Context) error {
 			d.mu.Lock()
 			d.Runs++
@@ -164,6 +240,7 @@ func (d *Driver) Take() []*common.MessagePublication {
 }
 
 func (d *Driver) Close() {
+	d.ReleaseLog()
 	d.C.ReleaseAll()
 	d.cancel()
 	for i := 0; i < 50; i++ {
